@@ -1,4 +1,5 @@
 import IkeProofs.Lemmas.Keys
+import IkeProofs.Lemmas.PrimsReal
 
 /-!
 # C07 — IKE SA keys follow RFC 7296 §2.13–2.14
@@ -199,5 +200,12 @@ example : (5100 : Nat) ≤ 255 * 20 ∧ Spec.blocksFor 5100 20 = 255 := by decid
 /-- prf+ on a dirty object, concretely: 45 octets from a 20-octet digest = 3 blocks cut to 45 -/
 example : (prfPlus Prims.toy ⟨1, [7], [1, 2, 3]⟩ [5] 45).2
     = .ok (Spec.prfPlusN (Prims.toy.mac 1) 20 [7] [5] 45) := by decide
+
+/-- The hypothesis `P.Lawful` of the theorems above (prf+ and the IKE SA key schedule) is not an assumption about the
+primitives the model actually runs: the executable SHA-256 / SHA-1 / MD5 / HMAC / AES of
+`IkeModel/Crypto` — the ones the correspondence suites compare byte for byte with Go's standard
+library — satisfy it (digest lengths; AES block length; `dec k (enc k b) = b` for every key and
+block, proved from FIPS-197's inverse structure in `Lemmas/PrimsReal.lean`). -/
+theorem C07_real_lawful : Prims.real.Lawful := Prims.real_lawful
 
 end Ike
